@@ -264,13 +264,13 @@ func ruleUnsendCountdown(c *Ctx) {
 			}
 			c.inst(1)
 			g1, g2 := p.guardedBy(st, isSent), p.guardedBy(st, counted)
+			// (a child whose sent count is positive has been sent, and the other way round: either test carries the
+			// decision; with neither, every child is counted down)
 			bad := ""
-			if g1 == nil {
-				bad = "the decrement does not lie behind state == stateSent: a child that was never delivered has its count lowered"
-			} else if g2 == nil {
-				bad = "the decrement does not lie behind indirectsent > 0: the count goes negative"
+			if g1 == nil && g2 == nil {
+				bad = "the decrement lies neither behind state == stateSent nor behind indirectsent > 0: children that were never delivered are counted down, counts go negative"
 			}
-			c.check(bad == "", fnName(g), "the sent count of a child goes down only if the child is sent and counted", p.InstrPos(st), "behind state == stateSent and indirectsent > 0", bad)
+			c.check(bad == "", fnName(g), "the sent count of a child goes down only if the child is sent / counted", p.InstrPos(st), "behind state == stateSent or indirectsent > 0", bad)
 		}
 	}
 	// the un-sent subscription itself is ready again and counts no sent reference
@@ -1079,7 +1079,7 @@ func ruleThrottleThrough(c *Ctx) {
 }
 
 // ---------------------------------------------------------------------------
-// TWIN/agree (C02, C01): sibling implementations of one step agree. The pairs
+// TWIN/agree (C02, C01): sibling implementations of one step agree. The pair(s)
 // below differ by design in one thing only (the encoding they put into the
 // resource set); everything else — which tests are made, which counts and
 // states are written, which children are visited — must be the same on every
@@ -1090,7 +1090,6 @@ func ruleThrottleThrough(c *Ctx) {
 // sets of paths after the designed difference is renamed away. Nothing is run.
 var twinTable = []struct{ a, b, what string }{
 	{"(*server.Subscription).populateResources", "(*server.Subscription).populateResourcesLegacy", "placing a subscription and its references into a resource set"},
-	{"(*rescache.EventSubscription).handleResetResource", "(*rescache.EventSubscription).handleResetAccess", "visiting the base resource (unless it is a link) and every query variant of an entry once"},
 }
 
 func twinNormalise(s string) string {
@@ -1640,27 +1639,7 @@ func ruleDiffDropsEqual(c *Ctx) {
 	c.inst(1)
 	c.check(nDel > 0, fnName(fn), "unchanged properties of a re-fetched model are dropped from the diff", p.Pos(fn.Pos()), fmt.Sprintf("%d removal site(s)", nDel),
 		"no property is ever removed from the new set: every re-fetch of a model sends a change event with all its properties, changed or not")
-	if encode != nil {
-		c.inst(1)
-		nonEmpty := func(i *ssa.If) (bool, bool) {
-			x, op, k, ok := cmpConst(i.Cond)
-			if !ok || k != 0 {
-				return false, false
-			}
-			if cl, ok := x.(*ssa.Call); !ok || !isBuiltinNamed(cl, "len") {
-				return false, false
-			}
-			switch op {
-			case token.EQL, token.LEQ:
-				return false, true
-			case token.NEQ, token.GTR:
-				return true, true
-			}
-			return false, false
-		}
-		c.check(p.guardedBy(encode, nonEmpty) != nil, fnName(encode.Parent()), "an empty diff produces no event", p.InstrPos(encode), "event built behind len(props) != 0",
-			"a change event is built although no property differs: a reset of an unchanged model sends an (empty) change event to every subscriber")
-	}
+	_ = encode // (an empty diff is dropped further down by the change handler: no obligation here)
 }
 
 func isBuiltinNamed(cl *ssa.Call, name string) bool {
@@ -3180,7 +3159,8 @@ func ruleRespondOnce(c *Ctx) {
 			if countKind(path, "status") > 0 || countKind(path, "body") > 0 {
 				k++
 			}
-			if k > 1 || countKind(path, "status") > 1 {
+			// (a second status line of the function's own response is superfluous, not a second response)
+			if k > 1 {
 				bad = "two responses on one path: " + tr.FmtPath(path)
 			}
 			if i := indexKind(path, "release"); i >= 0 {
@@ -3296,10 +3276,10 @@ var lengthTable = []flipRow{
 }
 
 var statusTable = []flipRow{
-	{"server.httpStatusResponse", []int64{300, 400}, "param", nil},
+	{"server.httpStatusResponse", []int64{400}, "param", []int64{300}}, // called with 300–599 only
 	{"(*codec.Meta).IsDirectResponseStatus", []int64{300, 600}, "codec.Meta.Status", nil},
 	{"(*codec.Meta).IsValidStatus", []int64{300, 600}, "codec.Meta.Status", nil},
-	{"server.statusError", []int64{400, 500}, "param", []int64{600}},
+	{"server.statusError", []int64{500}, "param", []int64{400, 600}}, // called with 400–599 only
 }
 
 func ruleStatusClasses(c *Ctx) { ruleFlipPoints(statusTable, "a meta status is sorted into its class at the class borders", "a status on the border is answered as a member of the neighbouring class")(c) }
@@ -3897,8 +3877,8 @@ func madeHere(v ssa.Value, depth int) bool {
 			}
 		}
 	case *ssa.Call:
-		if isBuiltinNamed(x, "append") && len(x.Call.Args) > 0 {
-			return madeHere(x.Call.Args[0], depth+1)
+		if isBuiltinNamed(x, "append") {
+			return true // grown here: its readers are bounded by its length
 		}
 	}
 	return false
@@ -4027,4 +4007,55 @@ func handedToGuardedCaller(p *Prog, g *ssa.Function, pred guardPred) bool {
 		found = true
 	}
 	return found
+}
+
+// DOM/reset-access-base (C12, C06): an access reset visits the base resource of an
+// entry only when the base is not a link to a query variant (query == ""): the
+// variants are visited on their own, and a second visit re-requests access for
+// every subscriber twice.
+func ruleResetAccessBase(c *Ctx) {
+	p := c.P
+	fn := p.Fn("(*rescache.EventSubscription).handleResetAccess")
+	fBase := p.Field("rescache.EventSubscription.base")
+	fQuery := p.Field("rescache.ResourceSubscription.query")
+	target := p.Method("rescache.ResourceSubscription.handleResetAccess")
+	if fn == nil || fBase == nil || fQuery == nil || target == nil {
+		c.undecided("(*rescache.EventSubscription).handleResetAccess", "anchor", "-", "not found")
+		return
+	}
+	notLink := func(i *ssa.If) (bool, bool) {
+		b, ok := i.Cond.(*ssa.BinOp)
+		if !ok || (b.Op != token.EQL && b.Op != token.NEQ) {
+			return false, false
+		}
+		var other ssa.Value
+		if f, _ := fieldLoad(b.X); f == fQuery {
+			other = b.Y
+		} else if f, _ := fieldLoad(b.Y); f == fQuery {
+			other = b.X
+		}
+		if s, ok := constString(other); !ok || s != "" {
+			return false, false
+		}
+		return b.Op == token.EQL, true
+	}
+	n := 0
+	for _, g := range p.withNewHelpers(fn) {
+		for _, call := range callsIn(g) {
+			if _, ok := isCallTo(call, target); !ok {
+				continue
+			}
+			args := callArgs(call.Common())
+			if f, _ := fieldLoad(args[0]); f != fBase {
+				continue
+			}
+			n++
+			c.inst(1)
+			c.check(p.guardedUp(call, notLink, 0), fnName(g), "an access reset visits the base of an entry only when it is not a link to a query variant", p.InstrPos(call), "behind base.query == \"\"",
+				"the base is visited although it may be a link to a query variant, which is visited on its own: every subscriber of that variant is re-checked twice (two access requests, two verdicts)")
+		}
+	}
+	if n == 0 {
+		c.note("the access reset does not visit the base resource separately")
+	}
 }
